@@ -321,10 +321,15 @@ std::vector<double> Log_Space(double min, double max, unsigned int steps)
 	else
 	{
 		std::vector<double> result;
-		double logmin = log(min);
-		double dlog	  = log(max / min) / (steps - 1.0);
+		// The ratio max/min leaves the range of normal doubles for end points more than ~308 decades apart.
+		double ratio = max / min;
+		double dlog	 = (std::isnormal(ratio) ? log(ratio) : log(max) - log(min)) / (steps - 1.0);
+		// Each point is reckoned from the nearer end point, such that the list starts at min and ends at max exactly.
 		for(unsigned int i = 0; i < steps; i++)
-			result.push_back(exp(logmin + i * dlog));
+			if(2 * i < steps)
+				result.push_back(min * exp(i * dlog));
+			else
+				result.push_back(max * exp(-1.0 * (steps - 1 - i) * dlog));
 		return result;
 	}
 }
